@@ -295,6 +295,12 @@ func defaultLike(v any) bool {
 	case json.Number:
 		f, err := strconv.ParseFloat(string(x), 64)
 		return err == nil && f == 0
+	case float64:
+		return x == 0
+	case int:
+		return x == 0
+	case int64:
+		return x == 0
 	case []any:
 		return len(x) == 0
 	case map[string]any:
